@@ -39,9 +39,13 @@ def obligations(tier):
         Ob('recognise_bit_and_dat', 'ch', 'BIT: 1..3 channels, 1..3 frames, symbolic data byte, either direction; DAT: 4 declaration orders, 4 headers, 1..2 rows, blank/tab, both date spellings, plain or with 40 / 150 further channels (2 KB / 7 KB before the first data row) or 400 further rows',
            det + ['bin_file_type._bit/_tif_initial/_tif_third_word', 'bin_file_type._dat', 'DAT.DAT_parser.can_parse_file'], harness='C20_filetype', func='recognise_bit_dat',
            timeout=280 if q else 900, parts=8),
+        Ob('totality_signature_prefixes_alphabet', 'ch', '18 signature / TIF / SUL / LIS / DAT / LAS prefixes + 4 bytes (8 x 8 x 4 x 3 choices) from an 8-letter alphabet (NUL, SOH, space, LF, 0, ~, 0x80, 0xff) + 0/1/7/40 filler bytes',
+           det + ['every detector in FUNCTION_ID_MAP'], harness='C20_filetype', func='totality_signatures_alphabet', timeout=170 if q else 900, parts=18),
+        Ob('totality_short_buffers_alphabet', 'ch', 'every byte string of length <= 5 over the same 8-letter alphabet', det + ['every detector in FUNCTION_ID_MAP'],
+           harness='C20_filetype', func='totality_alphabet', timeout=170 if q else 900, parts=8),
         Ob('totality_signature_prefixes', 'ch', '14 signature / TIF / SUL prefixes + 4 fully symbolic bytes + 0/1/7/40 filler bytes',
-           det + ['every detector in FUNCTION_ID_MAP'], harness='C20_filetype', func='totality_signatures', timeout=150 if q else 1500, parts=14, stubs=['SymFile']),
+           det + ['every detector in FUNCTION_ID_MAP'], harness='C20_filetype', func='totality_signatures', timeout=60 if q else 900, parts=14, stubs=['SymFile']),
         Ob('totality_arbitrary_buffer', 'ch', 'every byte string of length <= 12 (fully symbolic)', det + ['every detector in FUNCTION_ID_MAP'], harness='C20_filetype', func='totality',
-           timeout=150 if q else 3000, stubs=['SymFile']),
+           timeout=60 if q else 1200, stubs=['SymFile']),
     ]
     return obs
